@@ -55,6 +55,9 @@ def parse(ints):
         cnt = ints[9]
         return dict(op=6, fn=ints[2], a=X(ints[3]), b=X(ints[4]), lo=X(ints[5]), hi=X(ints[6]), n=ints[7], status=ints[8],
                     pts=[dict(xlo=X(ints[10 + 4 * i]), xhi=X(ints[11 + 4 * i]), f_lo=X(ints[12 + 4 * i]), f_hi=X(ints[13 + 4 * i])) for i in range(cnt)])
+    if op == 7:
+        cnt = ints[2]
+        return dict(op=7, entries=[tuple(X(ints[3 + 6 * i + j]) for j in range(6)) for i in range(cnt)])
     return dict(op=op)
 
 
@@ -85,6 +88,10 @@ def describe(ints, verdict, case_json):
         elif d["op"] == 4 and 0 <= pos < len(d["pts"]):
             p = d["pts"][pos]
             out.update(a=m2.fstr(d["a"]), x=m2.fstr(p["x"]), GammaInc=m2.fstr(p["p"]), GammaIncComp=m2.fstr(p["q"]), failed=CODES4.get(verdict[3], verdict[3]))
+        elif d["op"] == 7 and 0 <= pos < len(d["entries"]):
+            a, b, a1, b0, b1, bs = d["entries"][pos]
+            out.update(op="Beta laws", a=m2.fstr(a), b=m2.fstr(b), Beta_a_b=m2.fstr(b0), Beta_a1_b=m2.fstr(b1), Beta_b_a=m2.fstr(bs),
+                       failed={1: "not finite / not positive", 2: "Beta(a,b) != Beta(b,a)", 3: "(a+b) Beta(a+1,b) != a Beta(a,b) to 1e-9 relative"}.get(verdict[3] if len(verdict) > 3 else None))
         elif d["op"] == 6:
             out.update(op="monotonicity scan in x", function={1: "BetaInc(x,a,b)", 2: "GammaInc(a,x)", 3: "GammaIncComp(a,x)"}.get(d["fn"], d["fn"]),
                        a=m2.fstr(d["a"]), b=m2.fstr(d["b"]),
